@@ -183,6 +183,14 @@ def run(seed):
             ops += ['rename', 'string', 'args-slice', 'args-reverse', 'args-append']
         op = rnd.choice(ops)
         twin = has_twin(m) if m.parent is not None else False
+        # the real parent of a node inside an argument group is the command/environment owning the group: delete and
+        # replace search all of its argument groups and its body, so a twin there counts as well (finding D9)
+        try:
+            if node.parent is not None:
+                me = str(node)
+                twin = twin or sum(1 for x in node.parent.expr.all if str(x) == me) > 1
+        except Exception:
+            pass
         twin_seen = twin_seen or twin
         try:
             if m.parent is not None:
